@@ -576,7 +576,7 @@ pub fn run(tier: Tier, seed: u64) -> EnumOut {
 		let spec = Spec::Exec { prog: HELPER_MARK.into(), args };
 		for o in if thorough { &OPTS4[..] } else { &placements3[..] } {
 			work.push(Work::Spawn(spec.clone(), *o, Hook::Sync));
-			if thorough || n <= 1 {
+			if n <= if thorough { 2 } else { 1 } {
 				work.push(Work::Spawn(spec.clone(), *o, Hook::None));
 				work.push(Work::Spawn(spec.clone(), *o, Hook::Async));
 			}
@@ -588,11 +588,12 @@ pub fn run(tier: Tier, seed: u64) -> EnumOut {
 		for po in [Some("-c".to_string()), None] {
 			for command in TOK {
 				for args in vectors(&sp_tokens, 1) {
-					let plain = options.is_empty() && args.is_empty();
+					let small = |v: &Vec<String>| v.iter().all(|s| ["", "a b", "*", "\n"].contains(&s.as_str()));
+					let plain = (options.is_empty() && args.is_empty()) || (thorough && small(&options) && small(&args));
 					let spec = Spec::Shell { prog: HELPER_MARK.into(), options: options.clone(), program_option: po.clone(), command: command.to_string(), args };
 					for o in placements3 {
 						work.push(Work::Spawn(spec.clone(), o, Hook::Sync));
-						if thorough || plain {
+						if plain {
 							work.push(Work::Spawn(spec.clone(), o, Hook::None));
 							work.push(Work::Spawn(spec.clone(), o, Hook::Async));
 						}
@@ -616,7 +617,7 @@ pub fn run(tier: Tier, seed: u64) -> EnumOut {
 	let scratch = Scratch::new("c18");
 	let me = my_ids();
 	let threads = std::env::var("VERIF_WORKERS").ok().and_then(|s| s.parse().ok()).unwrap_or(16);
-	let mut out = par_map(&work, threads, |chunk, ti| {
+	let worker = |chunk: &[Work], ti: usize| {
 		let mut out = EnumOut::new(rule);
 		let rt = tokio::runtime::Builder::new_current_thread().enable_all().build().expect("runtime");
 		let tdir = scratch.path().join(format!("t{ti}"));
@@ -669,7 +670,13 @@ pub fn run(tier: Tier, seed: u64) -> EnumOut {
 					out.states += 1;
 					out.evaluations += 1;
 					bump(&mut out, "processes_spawned");
-					match rt.block_on(spawn_case(spec, *o, *hook, &tdir.join("c"), &helper, &me)) {
+					let mut res = rt.block_on(spawn_case(spec, *o, *hook, &tdir.join("c"), &helper, &me));
+					if res.is_err() {
+						// one retry: a stalled fork on an overloaded machine is not a verdict
+						bump(&mut out, "spawn_retries_after_timeout");
+						res = rt.block_on(spawn_case(spec, *o, *hook, &tdir.join("c2"), &helper, &me));
+					}
+					match res {
 						Ok((v, seen)) => {
 							mark(&mut out, "spawn", spec, *o, *hook);
 							let pick = match spec {
@@ -708,7 +715,16 @@ pub fn run(tier: Tier, seed: u64) -> EnumOut {
 			}
 		}
 		out
-	});
+	};
+	// forking from many threads at once contends on the address-space lock: the spawn leg runs
+	// on at most 4 threads, everything else on all of them
+	let (spawns, rest): (Vec<Work>, Vec<Work>) = work.into_iter().partition(|w| matches!(w, Work::Spawn(..)));
+	let t0 = std::time::Instant::now();
+	let mut out = par_map(&rest, threads, &worker);
+	let t1 = std::time::Instant::now();
+	out.merge(par_map(&spawns, threads.min(4), &worker));
+	out.extra.insert("wall_s_inspect_and_cli".into(), json!(((t1 - t0).as_secs_f64() * 10.0).round() / 10.0));
+	out.extra.insert("wall_s_real_spawn".into(), json!((t1.elapsed().as_secs_f64() * 10.0).round() / 10.0));
 	out.rule = rule.to_string();
 	out.assumptions = vec![
 		"Linux: pid / pgid / sid read by the child from /proc/self/stat".into(),
